@@ -342,7 +342,9 @@ def scen_vhdx(ctx, M):
         for j, b in enumerate(g):
             fixed[e + j] = b
         if kind == 'meta':
+            # the metadata region's offset and its announced length
             sym_cells += [e + 16 + j for j in range(8)]
+            sym_cells += [e + 24 + j for j in range(4)]
     mi = rt.index('meta') if 'meta' in rt else None
     N = ctx.int('N', 0, p.get('nmax', 16 * KiB * KiB))
     segs = []
